@@ -5,13 +5,7 @@
 //! program (differential macro vs builder, or vs the dynamic reference model). Ill-formed inputs are
 //! compiled in a separate file and every one of them must be rejected by the compiler.
 
-extern crate proc_macro;
-
-mod c15;
-mod c16;
-mod c17;
-mod harness;
-mod inproc;
+use mv_gen::{c15, c16, c17, harness};
 
 use mv_engine::Run;
 
